@@ -53,6 +53,13 @@ func runC12Concurrent(t *testing.T, viaRoute bool, quick, thorough int) {
 			}
 		}
 		stream := w.exportLogs(src)
+		// the source moves on: a later stream starts beyond whatever the copy will hold by then
+		for i := 0; i < 12; i++ {
+			if out := w.CreateTx(src, TxRequest{Postings: ledger.Postings{ledger.NewPosting("world", "s:late", "USD/2", big.NewInt(int64(1+i)))}, Metadata: map[string]string{"origin": "src-late"}}); out.Kind != ErrNone {
+				w.harness("source write failed: %v", out.Err)
+			}
+		}
+		lateStream := w.exportLogs(src)
 		dst := w.AddLedger("dst", "b2", fs)
 		nw := rapid.IntRange(1, 3).Draw(rt, "writes")
 		type res struct {
@@ -99,7 +106,7 @@ func runC12Concurrent(t *testing.T, viaRoute bool, quick, thorough int) {
 		for i := 1; i <= nw; i++ {
 			i := i
 			get := open(rapid.Bool().Draw(rt, "writerOpenedEarly"))
-			kind := rapid.SampledFrom([]string{"create", "create", "metadata", "atomic-bulk"}).Draw(rt, "writeKind")
+			kind := rapid.SampledFrom([]string{"create", "create", "metadata", "atomic-bulk", "ledger-metadata"}).Draw(rt, "writeKind")
 			outs[i].desc = fmt.Sprintf("%s #%d", kind, i)
 			mk := func(j int) TxRequest {
 				return TxRequest{Postings: ledger.Postings{ledger.NewPosting("world", fmt.Sprintf("p:%d:%d", i, j), fmt.Sprintf("A%d", i), big.NewInt(int64(i)))}, Metadata: map[string]string{"origin": fmt.Sprintf("w%d", i)}}
@@ -111,6 +118,15 @@ func runC12Concurrent(t *testing.T, viaRoute bool, quick, thorough int) {
 					return
 				}
 				switch kind {
+				case "ledger-metadata":
+					// not a write of the journal: the metadata of the ledger itself, kept in the row that also holds its state
+					if viaRoute {
+						if rec := w.httpCall("PUT", "/v2/dst/metadata", []byte(fmt.Sprintf(`{"owner":"w%d"}`, i))); rec.Code/100 != 2 {
+							outs[i].err = fmt.Errorf("HTTP %d: %s", rec.Code, truncate(rec.Body.String(), 200))
+						}
+					} else {
+						outs[i].err = w.Env.System.UpdateLedgerMetadata(w.Ctx, dst.Name, map[string]string{"owner": fmt.Sprintf("w%d", i)})
+					}
 				case "create":
 					_, _, _, outs[i].err = c.CreateTransaction(w.Ctx, mk(0).params())
 				case "metadata":
@@ -202,6 +218,36 @@ func runC12Concurrent(t *testing.T, viaRoute bool, quick, thorough int) {
 		for i := 1; i <= nw; i++ {
 			if outs[i].err != nil && classify(outs[i].err) != ErrAccountRace {
 				w.V("C12", "write w%d racing with an Import failed: %v (journal in commit order: %v)\n%sschedule:\n  %s", i, outs[i].err, journal, describe, sched)
+			}
+		}
+		// ---- once the ledger holds a committed write of its own (imported logs do not count: an import may be continued)
+		// it is no import target any more, whatever else happened to its row
+		if firstWrite >= 0 {
+			maxID := rows[len(rows)-1]["id"].N.Uint64()
+			for _, r := range rows {
+				if r["id"].N.Uint64() > maxID {
+					maxID = r["id"].N.Uint64()
+				}
+			}
+			var late []ledger.Log
+			for _, lg := range lateStream {
+				if *lg.ID > maxID {
+					late = append(late, lg)
+				}
+			}
+			if len(late) > 0 {
+				w.Reopen(dst)
+				err := w.importLogs(dst, late)
+				stored := 0
+				for _, r := range w.Env.Sim.Rows(dst.Bucket, "logs") {
+					if r["ledger"].S == dst.Name && origin(r) == "src-late" {
+						stored++
+					}
+				}
+				if err == nil || stored > 0 {
+					w.V("C12", "an Import of logs %d..%d sent after the race was answered %v and stored %d logs, although the ledger already held %d committed logs (journal in commit order: %v): a ledger that accepted a write must refuse imports\n%sschedule:\n  %s", *late[0].ID, *late[len(late)-1].ID, err, stored, len(rows), journal, describe, sched)
+				}
+				st.Class("late-import-refused")
 			}
 		}
 		// ---- the journal alone still determines the state
